@@ -473,6 +473,17 @@ def gen(ctx):
         history = [[r.choice(['is_valid', 'iter_errors', 'decode_lax', 'validate', 'lazy_errors', 'decode_typed']), r.randrange(4), r.randint(0, 7)]
                    for _ in range(r.randint(3, 8))]
         cases.append({'seed': seed, 'version': '1.1' if i % 2 else '1.0', 'docs': docs, 'history': history})
+    # focused: one undeclared element name under the lax wildcard in its variants (with / without xsi:type, nilled, content)
+    things = ['<o:thing>text</o:thing>', '<o:thing xsi:nil="true"/>', '<o:thing xsi:type="xs:int" xmlns:xs="http://www.w3.org/2001/XMLSchema">5</o:thing>',
+              '<o:thing xsi:type="xs:int" xsi:nil="true" xmlns:xs="http://www.w3.org/2001/XMLSchema"/>', '<o:thing><o:sub/></o:thing>',
+              '<o:thing xsi:type="xs:int" xmlns:xs="http://www.w3.org/2001/XMLSchema">y</o:thing>', '<o:thing xsi:nil="false">t</o:thing>']
+    for i in range(12 if ctx.quick() else 120):
+        seed = ctx.rng.randrange(10 ** 9)
+        r = random.Random(seed)
+        docs = [{'xml': '<R %s>%s</R>' % (ns, w), 'nodes': [(10, None, [1], [], 0)], 'root': 'R'} for w in r.sample(things, 4)]
+        history = [[r.choice(['is_valid', 'iter_errors', 'decode_lax', 'validate', 'to_objects', 'decode_typed']), r.randrange(4), r.randint(0, 7)]
+                   for _ in range(r.randint(3, 8))]
+        cases.append({'seed': seed, 'version': '1.1' if i % 2 else '1.0', 'docs': docs, 'history': history})
     # focused: pools of R4 documents only (type table x xsi:type, attributes of a namespace loaded on demand)
     for i in range(30 if ctx.quick() else 400):
         seed = ctx.rng.randrange(10 ** 9)
